@@ -1828,7 +1828,7 @@ class integer_ndarray(variable_ndarray):
         if len(lst) == 0:
             result = []
         elif isinstance(lst[0], list):
-            result = list(map(functools.partial(integer_ndarray.from_list, context=context), lst))
+            result = list(map(lambda l: integer_ndarray.from_list(l, context=context) if len(l) > 0 else [0]*len(context), lst))
         else:
             result = list(
                 map(
@@ -1890,7 +1890,7 @@ class boolean_ndarray(variable_ndarray):
         if len(lst) == 0:
             result = []
         elif isinstance(lst[0], list) or isinstance(lst[0], tuple):
-            result = list(map(functools.partial(boolean_ndarray.from_list, context=context), lst))
+            result = list(map(lambda l: boolean_ndarray.from_list(l, context=context) if len(l) > 0 else [0]*len(context), lst))
         else:
             result = list(
                 map(
